@@ -5,8 +5,9 @@ cd "$(dirname "$0")"
 export GOFLAGS=-mod=mod GOPROXY=off GOSUMDB=off GOTOOLCHAIN=local CGO_ENABLED=0
 mkdir -p build/facts lean/NasVerif/Gen evidence
 cp /repo/go.sum tools/go.sum
-(cd tools && go build -o ../build/extract ./extract && go build -tags verif -o ../build/harness ./harness)
-rm -f lean/NasVerif/Gen/*.lean
-./build/extract -repo /repo -out lean/NasVerif/Gen -facts build/facts
+(cd tools && go build -o ../build/extract ./extract)
+rm -f lean/NasVerif/Gen/*.lean tools/harness/zz_registry_gen.go
+./build/extract -repo /repo -out lean/NasVerif/Gen -facts build/facts -registry tools/harness/zz_registry_gen.go
+(cd tools && go build -tags verif -o ../build/harness ./harness)
 (cd lean && lake build NasVerif driver)
 echo setup ok
